@@ -56,7 +56,7 @@ FAULT_PROBES = {"runner_killed": "runner_killed", "output_file_torn": "output_to
                 "runners_overlapped": "runners_overlapped"}
 # a small share of the runs is repeated by fresh interpreters started with `python -O` (assert statements stripped)
 INTERP_VARIANTS = [{"flags": ["-O"], "runs": {"quick": 160, "thorough": 3000}, "what": "python -O (assert statements stripped from the code under test)"}]
-PROBES = ["hash_comparison_switched_off_by_caller", "cache_hit_valid", "cache_other_tag", "cache_failed_rc", "cache_success_flag_but_missing_file", "cache_unreadable", "destination_only_key",
+PROBES = ["job_without_return_files", "hash_comparison_switched_off_by_caller", "cache_hit_valid", "cache_other_tag", "cache_failed_rc", "cache_success_flag_but_missing_file", "cache_unreadable", "destination_only_key",
           "item_already_in_destination", "vectorised_partly_cached", "runner_killed", "output_torn", "interrupt_prepare", "interrupt_submit",
           "interrupt_wait", "interrupt_finalise", "tag_changed_between_calls", "fail_after_writing_return_file", "closing_call_completed", "idempotent_call_checked", "runners_overlapped", "driver_with_envars"]
 
@@ -124,7 +124,7 @@ def gen_plan(r, tier, index):
         if ci and r.random() < 0.2:
             call["cache_ops"].append({"op": r.choice(["delete", "corrupt"]), "key": r.choice(all_eks)})
         calls.append(call)
-    return {"check": CHECK, "vectorised": vec, "items": items, "dest_pre": dest_pre, "calls": calls, "n_workers": r.choice([1, 2, 4, None]),
+    return {"check": CHECK, "job_kind": r.choice(["files", "files", "files", "stdout"]), "vectorised": vec, "items": items, "dest_pre": dest_pre, "calls": calls, "n_workers": r.choice([1, 2, 4, None]),
             "driver_envars": r.choice([None, None, {"OMP_NUM_THREADS": "2"}, {"FAKE_LICENSE": "/opt/lic", "OMP_NUM_THREADS": "1"}]),
             "envars_in_input": r.random() < 0.5}
 
@@ -160,6 +160,28 @@ def _driver():
 
             @calc_ens.reduce
             def calc_ens(self, outputs, ens, *args, **kwargs):
+                res = ml.ConformerEnsemble(ens)
+                res.attrib["results"] = [m.attrib["result"] for m in outputs]
+                return res
+
+            # a job that requests NO return files (the Job() default): its result is what the program printed
+            @Job().prep
+            def echo(self, M, tag="t0"):
+                conf = f"c{M._conf_id}" if hasattr(M, "_conf_id") else "-"
+                return JobInput(M.name, commands=[(f"{self.executable} {M.name} {tag} {conf}", "fake")],
+                                files={"in.xyz": M.dumps_xyz().encode()},
+                                envars=dict(self.envars) if (self.envars and _ENVARS_IN_INPUT[0]) else None)
+
+            @echo.post
+            def echo(self, out, M, tag="t0"):
+                res = ml.Molecule(M, name=M.name)
+                res.attrib["result"] = out.stdouts["fake"].strip()
+                return res
+
+            echo_ens = Job.vectorize(echo)
+
+            @echo_ens.reduce
+            def echo_ens(self, outputs, ens, *args, **kwargs):
                 res = ml.ConformerEnsemble(ens)
                 res.attrib["results"] = [m.attrib["result"] for m in outputs]
                 return res
@@ -239,7 +261,12 @@ def run_plan(plan, trace=False):
         _ENVARS_IN_INPUT[0] = bool(plan.get("envars_in_input", True))
         if plan.get("driver_envars"):
             res.stats["probe:driver_with_envars"] += 1
-        job = drv.calc_ens if vec else drv.calc
+        nofiles = plan.get("job_kind") == "stdout"
+        if nofiles:
+            res.stats["probe:job_without_return_files"] += 1
+            job = drv.echo_ens if vec else drv.echo
+        else:
+            job = drv.calc_ens if vec else drv.calc
         cache = {}   # ek -> None | "unreadable" | {"tag","success","content","rc"}
         attempt_no = [0]
         attempts = {}
@@ -322,13 +349,15 @@ def run_plan(plan, trace=False):
                 o = _call["outcomes"].get(e, "ok")
                 content = f"{e}|{tg}|#{attempt_no[0]}".encode()
                 if o == "ok":
-                    return {"rc": 0, "files": {"out.txt": content}, "out": "done\n"}
+                    return {"rc": 0, "files": {"out.txt": content}, "out": content.decode() + "\n"}
                 if o == "rc1":
                     return {"rc": 1, "err": "failed\n"}
                 if o == "rc2":
                     return {"rc": 2}
                 if o == "sig":
                     return {"rc": -11}
+                if o == "nofile" and nofiles:
+                    return {"rc": 0, "out": content.decode() + "\n"}
                 if o == "nofile":
                     return {"rc": 0}
                 if o == "fail_with_file":
@@ -424,7 +453,7 @@ def run_plan(plan, trace=False):
                     cache[e] = "unreadable"
                     continue
                 rc = {"ok": 0, "rc1": 1, "rc2": 2, "sig": -11, "nofile": 0, "fail_with_file": 1, "sig_with_file": -9}[o]
-                has_file = o in ("ok", "fail_with_file", "sig_with_file")
+                has_file = o in ("ok", "fail_with_file", "sig_with_file") or (nofiles and o == "nofile")
                 if o in ("fail_with_file", "sig_with_file"):
                     res.stats["probe:fail_after_writing_return_file"] += 1
                 cache[e] = {"tag": tg, "success": rc == 0 and has_file, "rc": rc, "content": f"{e}|{tg}|#{n_}" if has_file else None}
